@@ -35,3 +35,5 @@ pub mod c12;
 pub mod c13;
 #[cfg(feature = "c16")]
 pub mod c16;
+#[cfg(feature = "c18")]
+pub mod c18;
